@@ -19,6 +19,7 @@ structure S where
   twSnaps : Array (List TW.View) := #[]    -- what each retained snapshot sees of the index trees
   names : List ((Nat × Nat × Nat) × Nat) := []   -- (table, index, channel) ↦ canonical number
   nextName : Nat := 1
+  parkedClose : String := ""               -- iterator whose Close() is held until `ccloseresume`
   deriving Inhabited
 
 def tableIdx : String → Option Nat
@@ -483,6 +484,10 @@ def closedNames (s : S) : String :=
 def step (s : S) (ws : List String) : S × String :=
   match ws with
   | ["closed"] => (s, closedNames s)
+  -- Close() started while a write transaction on the table is open and finished after it:
+  -- serialised after that transaction, i.e. a `cclose` at the point of `ccloseresume`
+  | ["cclosepark", c] => ({ s with parkedClose := c }, "ok")
+  | ["ccloseresume"] => stepCore { s with parkedClose := "" } ["cclose", s.parkedClose]
   | ["delall", tn] =>
     match tableIdx tn, s.db.wtxn with
     | some ti, some es =>
